@@ -108,6 +108,25 @@ fn check_pair_inner(a: &Locale, b: &Locale, st: &mut Stats, mode: Count) {
             }
         }
     }
+    // a hand-filled `extensions.other` (public field) is neither private-use nor part of the id:
+    // "otherwise equals the language-identifier result"
+    {
+        let fill = |l: &Locale, n: usize| {
+            let mut l = l.clone();
+            l.extensions.other.insert('a', (0..n).map(|_| "foo".parse().unwrap()).collect());
+            l
+        };
+        for (oa, ob) in [(fill(a, 1), b.clone()), (a.clone(), fill(b, 1)), (fill(a, 2), fill(b, 0))] {
+            for (ra, rb) in [(false, false), (true, false), (false, true), (true, true)] {
+                let exp = if private { false } else { expected(&ma, &mb, ra, rb) };
+                let got = oa.matches(&ob, ra, rb);
+                let got2 = oa.id.matches(&ob, ra, rb);
+                if got != exp || got2 != expected(&ma, &mb, ra, rb) {
+                    st.fail("locale-matches:hand-filled-other-extension", case(), size, format!("{sa} vs {sb} with extensions.other filled by hand on one / both sides, flags ({ra}, {rb}): Locale::matches = {got}, expected {exp}; LanguageIdentifier::matches(&Locale) = {got2}"));
+                }
+            }
+        }
+    }
     if !a.id.matches(&a.id, false, false) || !a.id.matches(&a.id, true, true) {
         st.fail("langid-matches:not-reflexive", case(), size, sa.clone());
     }
@@ -220,10 +239,19 @@ pub fn run(cfg: &Cfg) -> Stats {
     });
     total = total.merge(s);
     total.subspace("pairs of G2 locales: independent, identical, one-field-apart (proptest)", np, false);
+    // cold start (G28): matches() as the first library call of a fresh process, on raw-constructed values
+    let s = crate::props::cold::for_each_probe(cfg.pick(1_500, 8_000), "matches-first", &|a, b, obs, st| crate::props::cold::check_matches(a, b, obs, st, "matches-first"));
+    total = total.merge(s);
     total
 }
 
 pub fn replay(case: &Value, st: &mut Stats) {
+    if let Some((a, b, order)) = crate::props::cold::replay_pair(case) {
+        if let Ok(obs) = crate::props::cold::probe(&a, &b, &order) {
+            crate::props::cold::check_matches(&a, &b, &obs, st, &order);
+        }
+        return;
+    }
     let (Some(a), Some(b)) = (case["a"].as_str(), case["b"].as_str()) else { return };
     if let (Ok(a), Ok(b)) = (a.parse::<Locale>(), b.parse::<Locale>()) {
         check_pair(&a, &b, st, Count::Hash);
